@@ -231,3 +231,31 @@ func HarnessSelfTestErrors(a []int) {
 	verifAssert("self.errors.unwrap", errors.Unwrap(w1) == errSelfSentinel && errors.Unwrap(w2) == w1 && errors.Unwrap(plain) == nil)
 	verifCover("self.errors.end")
 }
+
+func init() {
+	verifHarnesses["HarnessSelfTestFormat"] = HarnessSelfTestFormat
+}
+
+type selfNum uint8
+
+func (n selfNum) String() string { return fmt.Sprintf("num %d", n) } // %d does not consult String: no recursion
+
+type selfErr uint8
+
+var selfErrCalls int
+
+func (e selfErr) Error() string { selfErrCalls++; return "self error" }
+
+// HarnessSelfTestFormat: the fmt model calls Error/String of an operand exactly for the verbs that are
+// valid for strings (%v %s %q %x %X, and Sprint), as package fmt does; validated natively.
+func HarnessSelfTestFormat(a []int) {
+	_ = selfNum(3).String()
+	selfErrCalls = 0
+	_ = fmt.Sprintf("%d %5.2f", selfErr(1), 1.5)
+	verifAssert("self.format.numeric_verbs_do_not_call", selfErrCalls == 0)
+	_ = fmt.Sprintf("%#x", selfErr(1))
+	_ = fmt.Errorf("status %v", selfErr(2))
+	_ = fmt.Sprint(selfErr(3))
+	verifAssert("self.format.string_verbs_call", selfErrCalls == 3)
+	verifCover("self.format.end")
+}
